@@ -28,13 +28,20 @@ def cases(tier, rng):
         for _ in range(250 if tier == "quick" else 4000):
             out.append("s%d %s" % (k, scen.scenario(rng, t)))
             k += 1
+        # no peer leaves: at the end the socket is drained, so every complete message must have come out
+        for _ in range(150 if tier == "quick" else 2500):
+            line = scen.scenario(rng, t, allow_eof=False)
+            out.append("d%d %s" % (k, line + " / recv" * 24))
+            k += 1
     return out
 
 
 def norm_impl(o, line):
     if line.split()[1] == "sock":
         return S.canon_impl(o, line)
-    return o
+    # C05 speaks about what is delivered and in which order, not about wake-ups (C06): drop the wake
+    # counts and the drain phase from the comparison
+    return " ".join(t.split("@")[0] for t in o.split() if not t.startswith(("D[", "left=")))
 
 
 def fq_judge(line, obs):
@@ -86,15 +93,21 @@ def sock_judge(line, obs):
     from .c09 import scen_parse
     msgs = {c: scen_parse(b) for c, b in fed.items()}
     if t in ("PULL", "SUB", "DEALER", "XPUB"):
-        # returned sequence must be an interleaving of the per-connection sequences
-        ptr = {c: 0 for c in msgs}
+        # the returned sequence must be an interleaving of prefixes of the per-connection sequences
+        # (search over pointer tuples: equal messages on different connections are ambiguous)
+        names = sorted(msgs)
+        states = {tuple(0 for _ in names)}
         for op, tk in po:
             if op[0] == "recv" and tk and tk.startswith("r=ok:"):
                 fr = S.frames_of_tok(tk[5:])
-                cands = [c for c in msgs if ptr[c] < len(msgs[c]) and msgs[c][ptr[c]] == fr]
-                if not cands:
+                nxt = set()
+                for st in states:
+                    for i, c in enumerate(names):
+                        if st[i] < len(msgs[c]) and msgs[c][st[i]] == fr:
+                            nxt.add(st[:i] + (st[i] + 1,) + st[i + 1:])
+                if not nxt:
                     return "recv returned %s which is not the next message of any connection" % tk[:100]
-                ptr[cands[0]] += 1
+                states = nxt
     elif t == "ROUTER":
         ann = {}
         for op, tk in po:
@@ -117,26 +130,39 @@ def sock_judge(line, obs):
                     return "message labelled %s is not that connection's next message: %s" % (who, tk[:100])
                 ptr[who] += 1
     elif t == "REP":
-        # every returned request is the payload part of some connection's next message
-        ptr = {c: 0 for c in msgs}
+        # every returned request is the payload part (a proper suffix) of a distinct message some connection sent
+        pool = [m for c in msgs for m in msgs[c]]
         for op, tk in po:
             if op[0] == "recv" and tk and tk.startswith("r=ok:"):
                 fr = S.frames_of_tok(tk[5:])
-                ok = False
-                for c in msgs:
-                    # skip messages of c that REP must have rejected (reported as errors) before this one
-                    j = ptr[c]
-                    while j < len(msgs[c]):
-                        m = msgs[c][j]
-                        if len(m) >= len(fr) and m[len(m) - len(fr):] == fr:
-                            ptr[c] = j + 1
-                            ok = True
-                            break
-                        j += 1
-                    if ok:
-                        break
-                if not ok:
-                    return "REP returned a request no connection sent (or out of order): " + tk[:100]
+                def payload(m):
+                    i = next((j for j, f in enumerate(m) if f == b""), 0)
+                    return m[i + 1:]
+                hit = next((i for i, m in enumerate(pool) if payload(m) == fr), None)
+                if hit is None:
+                    return "REP returned a request that is not the payload of any message a connection sent: " + tk[:100]
+                pool.pop(hit)
+    return None
+
+
+def drained_judge(line, obs):
+    """scenario without departures, ended by enough recvs to drain the socket: every complete message that
+    was put on the wire has been consumed exactly once (returned, or reported as one error)"""
+    t, po = S.pair_ops_obs(line, obs)
+    fed = {}
+    for op, tk in po:
+        if op[0] == "attach":
+            fed[op[1]] = b""
+        elif op[0] == "feed":
+            fed[op[1]] = fed.get(op[1], b"") + W.untok(op[2])
+    from .c09 import scen_parse
+    total = sum(len(scen_parse(b)) for b in fed.values())
+    recvs = [tk for op, tk in po if op[0] == "recv"]
+    if not recvs or recvs[-1] != "r=pending":
+        return None
+    consumed = sum(1 for r in recvs if r.startswith(("r=ok", "r=err")))
+    if consumed != total:
+        return "%d complete message(s) were put on the wire by connected peers, %d were returned or reported although the socket was drained" % (total, consumed)
     return None
 
 
@@ -145,7 +171,10 @@ def judge(line, obs, orc):
         return "implementation " + str(obs)[:80]
     if line.split()[1] == "fq":
         return fq_judge(line, obs)
-    return sock_judge(line, obs)
+    r = sock_judge(line, obs)
+    if r is None and line.startswith("d"):
+        r = drained_judge(line, obs)
+    return r
 
 
 def nontrivial(line):
